@@ -1141,6 +1141,9 @@ func init() {
 			src := "((draw a (slice (i 0 1000) 0 6)) (draw b (i -9223372036854775808 9223372036854775807)) (if (ge b 1000) (fatal 1)))"
 			if r.chance(1, 4) {
 				src = "((fatal 1))" // empty bitstream
+			} else if r.chance(1, 3) || i == 0 {
+				// a long bitstream: the minimized test case has thousands of words (a fail file of many KB)
+				src = "((draw a (slice (u 0 18446744073709551615) 700 700)) (draw b (i -9223372036854775808 9223372036854775807)) (if (ge b 1000) (fatal 1)))"
 			}
 			prog := mustSX(src)
 			dir, _ := os.MkdirTemp(tmp, "c06-")
@@ -1148,6 +1151,9 @@ func init() {
 			fl.Nofailfile = false
 			fl.Seed = r.u64() | 1
 			fl.ShrinkTime = []time.Duration{0, 30 * time.Second}[r.intn(2)]
+			if strings.Contains(src, "700 700") {
+				fl.ShrinkTime = 0 // the pruned original: long enough, and no minutes of minimization
+			}
 			logOutput := func(in *interp, t *rapid.T) {
 				if output != "" {
 					t.Log(output)
@@ -1198,6 +1204,9 @@ func init() {
 			}
 			m.tag("name-" + name[:min(len(name), 8)])
 			m.tag(fmt.Sprintf("output-%dB", len(output)))
+			if strings.Contains(src, "700 700") {
+				m.tag("bitstream-of-thousands-of-words")
+			}
 			m.eval(name+src+fmt.Sprint(len(output), fl.Seed), true)
 			if what != "" {
 				p := flagsStr(fl)
